@@ -216,6 +216,30 @@ func transformOnce(r *core.Rand, recs []Rec, md protoreflect.MessageDescriptor, 
 			}
 		}
 	case 4: // non-minimal varint value
+		if md != nil && r.Chance(1, 3) {
+			// a varint of a 32-bit (or bool/enum) field carrying bits above bit 31:
+			// well-formed input that every decoder has to truncate the same way
+			for _, i := range r.Perm(len(recs)) {
+				if recs[i].Typ != protowire.VarintType {
+					continue
+				}
+				fd := md.Fields().ByNumber(recs[i].Num)
+				if fd == nil {
+					continue
+				}
+				switch fd.Kind() {
+				case protoreflect.Int32Kind, protoreflect.Uint32Kind, protoreflect.Sint32Kind, protoreflect.EnumKind, protoreflect.BoolKind:
+					v, _ := protowire.ConsumeVarint(recs[i].Val)
+					hi := r.Uint64() << 32
+					if r.Chance(1, 3) {
+						hi = 1 << 32
+					}
+					hist("wide-varint-in-32bit-field")
+					recs[i].Val = protowire.AppendVarint(nil, v&0xffffffff|hi)
+					return recs
+				}
+			}
+		}
 		for _, i := range r.Perm(len(recs)) {
 			if recs[i].Typ == protowire.VarintType && len(recs[i].Val) < 9 {
 				hist("pad-varint")
